@@ -677,6 +677,8 @@ class Server(base_server.BaseServer):
             self._handle_disconnect(eio_sid, n, reason)
         if eio_sid in self.environ:
             del self.environ[eio_sid]
+        if eio_sid in self._binary_packet:
+            del self._binary_packet[eio_sid]
 
     def _engineio_server_class(self):
         return engineio.Server
